@@ -146,6 +146,7 @@ def check(rep: Report, ctx: Ctx) -> None:
     r123(rep, ctx)
     r124(rep, ctx, sql)
     r125(rep, ctx, sql)
+    r127(rep, ctx, sql)
 
 
 def _lambda_attr(e: Optional[ast.AST]) -> Optional[str]:
@@ -626,3 +627,21 @@ def r125(rep: Report, ctx: Ctx, sql) -> None:
                 and isinstance(v.value, ast.Name) and v.value.id == p
         rep.ob("R12.5", f"span.{name} <- row.{name}", ok, fi=conv,
                node=ctor[0], detail=f"{name} = {unparse(v)}")
+
+
+def r127(rep: Report, ctx: Ctx, sql) -> None:
+    """(shared with C11 R11.5)  "under one workflow name": the stream is
+    ordered and grouped by (job_name, job_id); a trace whose spans carry two
+    names is yielded in pieces.  One name per trace is established by the
+    name propagation from the trace's root row to EVERY span of the trace."""
+    rep.rule("R12.7", "every span of a trace carries the name of the "
+             "trace's root row before the stream groups by name", 1)
+    from .c11 import _rename
+    fi = ctx.func("SQLDataHolder.update_job_names_by_root_span")
+    sub = Report("C11", ctx.index)
+    sub.rule("R11.5", "", 0)
+    _rename(sub, fi, sql.run(fi))
+    for o in sub.obligations:
+        o.rule = "R12.7"
+        rep.obligations.append(o)
+    rep.funcs_seen |= sub.funcs_seen
